@@ -159,3 +159,20 @@ Example C03_overwrite_breaks_agreement :
                    (h_empty nat nat) [HNew nat nat 1%nat false; HNew nat nat 2%nat true]) in
   h_info st = Some 2%nat /\ h_handles st = [1%nat; 2%nat] /\ ~ agree nat nat st.
 Proof. exact overwrite_breaks_agreement. Qed.
+
+(* ---- from ANY initial store (a destination that already holds chunks) ---- *)
+From NGS Require Import PioAnyStore.
+Theorem C03_io_refinement_any_store :
+  forall (chunk bytes : Type) (encode : list N -> chunk -> outcome bytes)
+         (decode : list N -> bytes -> triple -> outcome chunk) (shape_of : chunk -> triple),
+  (forall k ch b, encode k ch = Ok b -> decode k b (shape_of ch) = Ok ch) ->
+  forall scales (st0 : store bytes) ops k c,
+  Forall (well_shaped chunk shape_of) ops ->
+  check_valid scales k c = Ok tt ->
+  read_chunk chunk bytes decode scales (fst (run chunk bytes encode decode scales st0 ops)) k c
+  = match last_written chunk bytes encode scales ops k c None with
+    | Some ch => Ok ch
+    | None => read_chunk chunk bytes decode scales st0 k c
+    end.
+Proof. exact io_refinement_any_store. Qed.
+Print Assumptions C03_io_refinement_any_store.
